@@ -326,7 +326,7 @@ def main(ctx):
     reg = sorted(glob.glob(os.path.join(common.VERIF_DIR, "regress", "C10", "*.json")))
     ctx.pmap(regress_worker, [(p, known) for p in reg])
     n = 60 if quick else 1000
-    stop_at = time.time() + (70 if quick else 1500)
+    stop_at = time.time() + (70 if quick else 900)
     ctx.pmap(worker, [(ctx.seed * 100003 + i, n, known, stop_at) for i in range(common.NPROC)])
     ctx.rule = ("case = (generated or lexer-style program, option set with indirect pointer, guided input + 2 trailing bytes so that calls follow "
                 "a terminal result); each input is run byte-per-call and under Hypothesis-drawn chunkings on the normal and the strict-done build; "
